@@ -69,7 +69,9 @@ func (u *Unit) queryV(ob *Obligation, forCVC bool, withModel bool, macroAt bool)
 				continue
 			}
 			// an obligation this run does not check must not be assumed either: it may be the one that fails
-			if c.ob.Unchecked {
+			// (a failed safety obligation aborts the execution, so the code after it runs only when it held: those stay
+			// path conditions whether or not this run checks them)
+			if c.ob.Unchecked && !safetyKinds[c.ob.Kind] {
 				continue
 			}
 			// obligations about end states (returns, back edges, loop entry) cannot help later program points
